@@ -113,7 +113,7 @@ class G:
             prods = [(2, self.p_leaf), (1, self.p_if), (1, self.p_missing)]
         elif k[0] == "list":
             prods = [(3, self.p_listlit), (4, self.p_for), (4, self.p_filter), (2, self.p_listpath), (1, self.p_if), (1, self.p_leaf),
-                     (1, self.p_call), (1, self.p_arity_shadow)]
+                     (1, self.p_call), (1, self.p_arity_shadow), (1, self.p_item_key)]
         elif k[0] == "ctx":
             prods = [(4, self.p_ctxlit), (1, self.p_if), (2, self.p_index), (1, self.p_leaf)]
         elif k[0] == "fn":
@@ -300,6 +300,22 @@ class G:
         if s.bool(0.1):
             return ["path", self.expr(ck, d - 1, env), s.choice([q for q in KEYS if q != key and q not in dict(others)] or ["zz"])]
         return ["path", self.expr(ck, d - 1, env), key]
+
+    def p_item_key(self, k, d, env):
+        """a filter whose elements are contexts with an entry named `item`: there `item` in the filter expression is that entry, not the
+        element; the subject is a list of such contexts or one such context (filtered like a singleton list). Result: list of numbers."""
+        if k != ("list", NUM):
+            return self.p_filter(k, d, env)
+        s = self.src
+        def elem():
+            entries = [["item", self.leaf(NUM, env)], ["g", self.leaf(NUM, env)]]
+            if s.bool(0.3):
+                entries.reverse()
+            return ["ctx", entries]
+        subj = elem() if s.bool(0.4) else ["list", [elem() for _ in range(s.int(1, 3))]]
+        left = ["name", "item"] if s.bool(0.8) else ["path", ["name", "item"], s.choice(["item", "g"])]
+        pred = ["cmp", s.choice(["<", ">", "<=", ">=", "=", "!="]), left, self.leaf(NUM, env)]
+        return ["path", ["filter", subj, pred], "g"]
 
     def p_listpath(self, k, d, env):
         """path over a list of contexts"""
